@@ -797,10 +797,10 @@ class ProgGen:
         def oracle(r):
             d = x.to_numpy()
             return ("dense", np.diag(np.diag(d)), dict(enumerate(x.get_legs(native=True))))
-        j = self._do(None, lambda V: V[i].diag(), oracle, "diag_to_diag", (i,))
+        j = self._do({"f": "diag", "a": [i]}, lambda V: V[i].diag(), oracle, "diag_to_diag", (i,))
         y = self.vals[j]
         if isinstance(y, yastn.Tensor) and rng.random() < 0.7:
-            return self._do(None, lambda V: V[j].diag(), lambda r: ("dense", y.to_numpy(), dict(enumerate(y.get_legs(native=True)))), "diag_to_full", (j,))
+            return self._do({"f": "diag", "a": [j]}, lambda V: V[j].diag(), lambda r: ("dense", y.to_numpy(), dict(enumerate(y.get_legs(native=True)))), "diag_to_full", (j,))
         return j
 
     def _diag_for(self, leg):
